@@ -12,7 +12,7 @@ binp = c.gobuild('eng')
 if c.replay:
     ec.replay_one(c, binp)
 
-S = [1, 2]
+S = [1, 2, 3]
 leaves = []
 for v in (0, 1, 2):
     for op in ('eq', 'ne', 'lt', 'le', 'gt', 'ge'):
@@ -22,8 +22,6 @@ for v in (0, 1, 2):
         leaves.append(leaf(op, 'b', (v,)))
 for vs in ((0,), (0, 2), (1, 2), (0, 1, 2)):
     leaves += [leaf('in', 'a', vs), leaf('notin', 'a', vs), leaf('in', 'b', vs), leaf('notin', 'b', vs)]
-for vs in ((1,), (2,), (1, 2), (2, 3), (1, 2, 3)):
-    leaves += [leaf('having', 'arr', vs), leaf('nothaving', 'arr', vs)]
 qs = [query(1, 3, S, crit('one', l)) for l in leaves]
 pairs = [(leaves[0], leaves[20]), (leaves[3], leaves[-1]), (leaves[7], leaves[25]), (leaves[10], leaves[30]), (leaves[14], leaves[22]), (leaves[1], leaves[4])]
 for a, b in pairs:
@@ -32,9 +30,12 @@ for a, b in pairs:
 qs += [query(1, 1, S, crit('one', leaves[0])), query(2, 3, [1], crit('one', leaves[2])), query(3, 3, [2], crit('one', leaf()))]
 
 fams = []
-for idx in ('none', 'inverted'):
+# measure: criteria are only accepted on tags covered by an index rule, and indexed tags are series-level attributes by the
+# documented contract (docs/concept/data-model.md): tags are a function of the series here; the unindexed configuration is
+# exercised with entity/time restrictions only
+for idx in ('inverted',):
     fams.append(dict(name='measure-criteria-' + idx, series=S, times=[1, 2, 3], versions=[1, 2], versioned=True, maxrows=1, maxtotal=3,
-                     maxops=3, graphops=0, sims=40 if c.quick else 400, simops=11, queries=qs, index=idx, sim=dict(maxrows=3, maxtotal=8)))
+                     maxops=3, graphops=0, sims=40 if c.quick else 400, simops=11, queries=qs, index=idx, tags_by_series=True, sim=dict(maxrows=3, maxtotal=8)))
 def nontrivial(st):
     ops = [x['last'].get('op') for x in st[1:]]
     return 'queryall' in ops and ('flush' in ops or 'merge' in ops)
